@@ -76,6 +76,54 @@ def run(ck):
     tc.run_cases(ck, lines, "random", nontrivial)
     for j, p in enumerate(PROGS[:2] if not thorough else PROGS):
         tc.run_dfs(ck, p, 2, 40000 if thorough else 2500, "dfs%d" % j, nontrivial)
+    real_engine(ck, thorough)
+
+
+REAL = [
+    "call:accept:2000,call:refused:2000,call:blackhole:300,call:reset:1000,call:cancel:1000",
+    "par:call:accept:2000+call:blackhole:400+call:refused:1500+call:accept:2000+call:blackhole:250+call:cancel:800+call:reset:1000+call:accept:2000",
+    "par:call:blackhole:200+call:blackhole:350+call:blackhole:500+call:cancel:600,call:accept:1500,par:call:refused:500+call:refused:500",
+]
+
+
+def real_engine(ck, thorough):
+    """the real TcpEngine: targets that accept, refuse, black-hole, reset; cancellation; 8 concurrent callers (real time)"""
+    import json
+    ck.make("drv_connectreal")
+    cases = REAL * (4 if thorough else 1)
+    cp = os.path.join(ck.work, "real_cases.txt")
+    open(cp, "w").write("\n".join(cases) + "\n")
+    outp = os.path.join(ck.work, "real.ndjson")
+    rc, out = vf.run_driver("drv_connectreal", ["run", cp, outp, 3], timeout=900)
+    if rc != 0:
+        raise vf.Infra("drv_connectreal failed: " + out[-1500:])
+    events = vf.read_ndjson(outp)
+    if any(e["e"] in ("SetupFailed", "HarnessTimeout") for e in events):
+        raise vf.Infra("drv_connectreal could not set a scenario up")
+    execs = vf.split_executions(events)
+    ck.evaluations += len(execs)
+    if any(e["e"] == "Crashed" for e in events):
+        rp = ck.save_replay("real_crash", {"trace.ndjson": outp})
+        ck.violation("real-engine connectSync scenario crashed", rp)
+        return
+    spec = os.path.join(SPECDIR, "ConnectRealTrace.tla")
+    v = ck.validate(spec, os.path.join(SPECDIR, "ConnectRealTrace.cfg"), outp, n_exec=len(execs))
+    ck.sample({"kind": "real TcpEngine connectSync", "case": cases[0], "events": execs[0][1][:12]})
+    if not v.accepted:
+        # a rejection that depends on wall-clock slack is reported only if an immediate re-run repeats it
+        rc, out = vf.run_driver("drv_connectreal", ["run", cp, outp + ".again", 3], timeout=900)
+        v2 = ck.validate(spec, os.path.join(SPECDIR, "ConnectRealTrace.cfg"), outp + ".again", n_exec=0)
+        if v2.accepted:
+            ck.note("real-engine rejection at line %d not repeated by an immediate re-run: treated as load noise, not reported" % v.maxl)
+            return
+        events = vf.read_ndjson(outp + ".again")
+        execs = vf.split_executions(events)
+        x = vf.exec_index_of_line(events, v2.maxl)
+        start, evs = execs[min(x, len(execs) - 1)]
+        bad_ev = events[v2.maxl - 1] if v2.maxl <= len(events) else {}
+        rp = ck.save_replay("real_reject_%d" % x, {"trace.ndjson": "\n".join(json.dumps(e) for e in evs) + "\n", "case.txt": "real " + cases[x] + "\n"})
+        ck.classify({"spec": "ConnectRealTrace", "event": bad_ev.get("e"), "kind": bad_ev.get("kind")},
+                    "real TcpEngine connectSync execution rejected (%s): first unmatched event %s" % (cases[x], json.dumps(bad_ev)), rp)
 
 
 def replay(ck, path):
